@@ -36,6 +36,17 @@ CLAIMED["C15"] = ("Proof (deductive, all K/OP/RAND/SQN/AMF): milenageF1, milenag
   "Trusted: govc, go/ssa, SMT solvers; AES-128 is an uninterpreted function; spec functions validated against TS 35.208 test set 1 natively.",
   "DESIGN.md §4 C15")
 
+CLAIMED["C11"] = ("Proof (deductive, all IMSIs of any length, 2- and 3-digit MNC, all digits symbolic): stgutg.EncodeSuci returns exactly the null-scheme SUCI contents of TS 24.501 9.11.3.4 "
+  "(spec /verif/spec/ids written from the figure: type octet, PLMN octets, routing indicator F0 FF, scheme 0, key id 0, BCD MSIN with 1111 filler), by a loop invariant over the MSIN loop (unbounded) with termination; "
+  "lemmas: an independent nibble decoder recovers MCC/MNC/MSIN from the result, and Buffer[1:4] is the TS 23.003 PLMN encoding.",
+  "Trusted: govc, go/ssa, SMT solvers, the spec transcription. The use of the SUCI/PLMN octets by the registration and NG-setup drivers is C01/C13, not claimed here.",
+  "DESIGN.md §4 C11")
+CLAIMED["C12"] = ("Proof (deductive): both extractors terminate on every input (variant on the walk index, run-time panics end the walk: behavior `total`), and on every well-formed input "
+  "(recursive well-formedness predicates written from TS 24.501 table 8.3.2.1.1 resp. the X.691 encoding of the TS 38.413 transfer) they are panic-free and return exactly the IPv4 PDU address of the first IE 0x29 "
+  "resp. the address and TEID octets of the GTP tunnel of IE 139 (behavior `wellformed`, inductive invariant Find(pos)=Find(start)); QoS-rule, DNN, AMBR ... lengths are symbolic.",
+  "Trusted: govc, go/ssa, SMT solvers (incl. z3's sat.euf core), the spec transcriptions; peer assumption stated in the spec: IEs preceding id 139 in the transfer have one-octet length determinants (< 128 octets).",
+  "DESIGN.md §4 C12")
+
 PENDING = {
 }
 
